@@ -4,6 +4,7 @@ package verifstack
 
 import (
 	"bytes"
+	"context"
 	"errors"
 	"path"
 	"sort"
@@ -35,18 +36,22 @@ type rtx struct {
 }
 
 type world struct {
-	cfg   config.Config
-	d     fs_db.DB
-	c     *di.Container
-	vs    []rver
-	txs   []*rtx // index 0 unused (autocommit)
-	clock int
-	nval  int
-	keys  []string
-	vlen  int
-	pend  *pendingOp // the operation in flight (set before the call, cleared when it returns)
-	stepKeys []string // keys the history alphabet writes (default: keys)
-	otherOpened bool  // another database of the same process has been opened
+	cfg         config.Config
+	d           fs_db.DB
+	c           *di.Container
+	vs          []rver
+	txs         []*rtx // index 0 unused (autocommit)
+	clock       int
+	nval        int
+	keys        []string
+	vlen        int
+	pend        *pendingOp // the operation in flight (set before the call, cleared when it returns)
+	stepKeys    []string   // keys the history alphabet writes (default: keys)
+	otherOpened bool       // another database of the same process has been opened
+	// storerAhead: keys for which the storing goroutine of an inline Create is let run until it
+	// parks (waiting for data) after Create and after every Write - the usual schedule in
+	// practice; for the other keys it runs only when the writer blocks in Close
+	storerAhead map[string]bool
 }
 
 type pendingOp struct {
@@ -177,6 +182,10 @@ func (w *world) doSet(t int, key string, val []byte, how int) error {
 	w.pend = &pendingOp{kind: 0, t: t, key: key, val: val}
 	defer func() { w.pend = nil }()
 	var err error
+	// every call runs under a context of its own that is cancelled as soon as the call has
+	// returned (the caller's `defer cancel()`; what the gRPC server does with a request context)
+	ctx, cancel := context.WithCancel(ctx)
+	defer cancel()
 	switch how {
 	case 0:
 		err = st.Set(ctx, key, val)
@@ -187,9 +196,15 @@ func (w *world) doSet(t int, key string, val []byte, how int) error {
 		if cerr != nil {
 			return cerr
 		}
+		if w.storerAhead[key] {
+			nd.Quiescent()
+		}
 		// split into two writes when possible
 		h := len(val) / 2
 		_, err = f.Write(val[:h])
+		if w.storerAhead[key] {
+			nd.Quiescent()
+		}
 		if err == nil {
 			_, err = f.Write(val[h:])
 		}
@@ -207,6 +222,8 @@ func (w *world) doSet(t int, key string, val []byte, how int) error {
 func (w *world) doDelete(t int, key string) error {
 	w.pend = &pendingOp{kind: 1, t: t, key: key}
 	defer func() { w.pend = nil }()
+	ctx, cancel := context.WithCancel(ctx)
+	defer cancel()
 	err := w.store(t).Delete(ctx, key)
 	if err == nil {
 		w.vs = append(w.vs, rver{key: key, del: true, owner: t, pos: w.tick()})
@@ -246,7 +263,9 @@ func (w *world) commit(t int, id string) {
 		}
 	}
 	w.pend = &pendingOp{kind: 2, t: t}
-	err := tx.h.Commit(ctx)
+	cctx, cancel := context.WithCancel(ctx)
+	err := tx.h.Commit(cctx)
+	cancel()
 	w.pend = nil
 	var rest []rver
 	for _, v := range w.vs {
@@ -271,7 +290,9 @@ func (w *world) commit(t int, id string) {
 }
 
 func (w *world) rollback(t int, id string) {
-	err := w.txs[t].h.Rollback(ctx)
+	cctx, cancel := context.WithCancel(ctx)
+	err := w.txs[t].h.Rollback(cctx)
+	cancel()
 	nd.Assert(err == nil, id+".rollback-ok")
 	var rest []rver
 	for _, v := range w.vs {
